@@ -395,16 +395,43 @@ def propagate_aliases(fn):
                 if isinstance(x, ast.Name):
                     nested_names.add(x.id)
     aliases = {}
-    for st in fn.body if False else [s for s in ast.walk(fn) if isinstance(s, ast.Assign)]:
-        if len(st.targets) == 1 and isinstance(st.targets[0], ast.Name):
+
+    def pure_paths(e):
+        """Paths read by a pure expression: an attribute path, or a tuple/list of paths, names and constants."""
+        p = _path(e)
+        if p and len(p) >= 2:
+            return [p]
+        if isinstance(e, (ast.Tuple, ast.List)) and e.elts:
+            out = []
+            for x in e.elts:
+                if isinstance(x, ast.Constant):
+                    continue
+                px = _path(x)
+                if not px:
+                    return None
+                out.append(px)
+            return out
+        return None
+
+    in_loop = set()
+    for lp in ast.walk(fn):
+        if isinstance(lp, (ast.For, ast.While)):
+            for x in ast.walk(lp):
+                if isinstance(x, ast.Assign):
+                    in_loop.add(id(x))
+    for st in [s for s in ast.walk(fn) if isinstance(s, ast.Assign)]:
+        if len(st.targets) == 1 and isinstance(st.targets[0], ast.Name) and id(st) not in in_loop:
             x = st.targets[0].id
-            p = _path(st.value)
-            if p and len(p) >= 2 and stores.get(x, 0) == 1 and x not in nested_names and stores.get(p[0], 0) <= 1:
-                # the path must not be stored to after the alias is taken
+            paths = pure_paths(st.value)
+            if paths and stores.get(x, 0) == 1 and x not in nested_names:
                 later = False
-                for n in ast.walk(fn):
-                    if isinstance(n, ast.Attribute) and isinstance(n.ctx, ast.Store) and _path(n) == p and getattr(n, "lineno", 0) > st.lineno:
-                        later = True
+                for p in paths:
+                    for n in ast.walk(fn):
+                        # neither the path nor its root may be rebound after the alias is taken
+                        if isinstance(n, ast.Attribute) and isinstance(n.ctx, ast.Store) and _path(n) == p and getattr(n, "lineno", 0) > st.lineno:
+                            later = True
+                        if isinstance(n, ast.Name) and isinstance(n.ctx, ast.Store) and n.id == p[0] and getattr(n, "lineno", 0) > st.lineno:
+                            later = True
                 if not later:
                     aliases[x] = (st, st.value)
     if not aliases:
